@@ -496,11 +496,13 @@ class Life:
         if out is True:
             self.c("clause:C10.c")
             if not forced:
-                n_tr = len(placed_trades) + (0 if any(t is y for y in placed_trades) else 1)
-                if n_tr > st.max_trade_count:
+                new_trade = not any(t is y for y in placed_trades)
+                n_tr = len(placed_trades) + (1 if new_trade else 0)
+                # only a placement that ADDS a trade can breach the count (forced placements skip the controls)
+                if new_trade and n_tr > st.max_trade_count:
                     self.v("C10.c", ("limit", "max_trade_count", ev), "placement accepted: %d distinct trades > max_trade_count %s" % (n_tr, st.max_trade_count))
                 n_live = len(live_trades) + (0 if same_live else 1)
-                if n_live > st.max_live_trade_count:
+                if not same_live and n_live > st.max_live_trade_count:
                     self.v("C10.c", ("limit", "max_live_trade_count", ev), "placement accepted: %d live trades > max_live_trade_count %s" % (n_live, st.max_live_trade_count))
                 if not multi_exempt:
                     if last_placed is not None and (now - last_placed).total_seconds() < t.place_reset_seconds:
